@@ -34,14 +34,15 @@ def normalize(geom):
     """
     g = geom.strip()
 
-    # remove spaces around ':' operator
-    g = re_union.sub(':', g)
-
     # Remove spaces inside complement operators. Represent complement of
     # surfaces with _() and complement of cells with ^(). Add a space before
     # the complement operator to parse consecutive complement operators.
     g = re_compl_cell.sub(r' ^(\1)', g)
     g = re_compl_surf.sub(r' _(', g)
+
+    # remove spaces around ':' operator (after the complement substitution,
+    # which may have inserted a space right after a ':')
+    g = re_union.sub(':', g)
 
     # remove spaces after '(' and before ')'
     g = re_pareno.sub('(', g)
